@@ -108,3 +108,12 @@ Theorem C15_refuted_K_map_ctor_priority_and_no_submap :
   /\ pair_guard15 (ps_env ex7) (ps_fuel ex7) (ps_jobs ex7) = false.
 Proof. exact ex7_ctor_findings. Qed.
 Print Assumptions C15_refuted_K_map_ctor_priority_and_no_submap.
+
+(* ---- with two mapper methods of one signature the constructor argument uses the
+   LAST (makeCtorMatch keeps looping), the passes the FIRST: open finding K_map_ctor_func_last *)
+Theorem C15_refuted_K_map_ctor_func_last :
+  run_to ex8 (VPtr ex8_v) = Ok (VPtr (VStruct [("ratio", VInt 9)]))
+  /\ want15_to ex8 (VPtr ex8_v) = Some (VPtr (VStruct [("ratio", VInt 3)]))
+  /\ pair_guard15 (ps_env ex8) (ps_fuel ex8) (ps_jobs ex8) = false.
+Proof. exact ex8_func_last. Qed.
+Print Assumptions C15_refuted_K_map_ctor_func_last.
